@@ -291,18 +291,10 @@ def round_(number, num_digits=0):
     # Excel reference: https://support.microsoft.com/en-us/office/
     #   ROUND-function-c018c5d8-40fb-4053-90b1-b3e7f61a213c
 
-    num_digits = int(num_digits)
-    if num_digits >= 0:  # round to the right side of the point
-        return float(Decimal(repr(number)).quantize(
-            Decimal(repr(pow(10, -num_digits))),
-            rounding=ROUND_HALF_UP
-        ))
-        # see https://docs.python.org/2/library/functions.html#round
-        # and https://gist.github.com/ejamesc/cedc886c5f36e2d075c5
-
-    else:
-        # builtin round() rounds ties to even (round(25, -1) == 20)
-        return _round(number, num_digits, rounding=ROUND_HALF_UP)
+    # builtin round() rounds ties to even (round(25, -1) == 20), see
+    # https://docs.python.org/3/library/functions.html#round
+    # pow(10, -num_digits) is 0.0 from 324 digits on (ROUND(1.23456, 400) was 1.2)
+    return _round(number, num_digits, rounding=ROUND_HALF_UP)
 
 
 def _round(number, num_digits, rounding):
